@@ -450,12 +450,17 @@ pub fn run_c13(ctx: &Ctx) -> i32 {
     let mut rep = Report::default();
     let g = Group { name: "mtu", cases: ctx.tier.pick(1000, 60_000), budget_s: ctx.tier.pick(45.0, 1200.0), exhaustive: false };
     run_group(ctx, &mut rep, &g, |_, seed, trace| c13_case(seed, trace));
+    // closing packets: CONNECTION_CLOSE / APPLICATION_CLOSE with error codes of every varint size
+    // and reasons up to several packets long, sent in every packet space (the C08 scenarios; only
+    // the size monitor's verdicts count here)
+    let g = Group { name: "closing", cases: ctx.tier.pick(1500, 60_000), budget_s: ctx.tier.pick(15.0, 400.0), exhaustive: false };
+    run_group(ctx, &mut rep, &g, |_, seed, trace| super::c08::case(seed, Lane::Null, trace));
     finish(
         ctx,
         &rep,
         Finish {
             level: "exploration",
-            rule: "seeded worlds with initial_mtu / min_mtu / discovery (upper bound, interval, cooldown, minimum change) configurations, peer max_udp_payload_size 1472, GSO batch 1..10, path MTU 1200..9000 that drops (black hole) or rises at random instants, coalesced handshake flights, DATAGRAM frames, loss/reorder faults, rebinding. Per transmit: every datagram <= current_mtu() read before the call (all but the last exactly segment_size) unless the call sent the MTU probe (sent_plpmtud_probes delta), which must be a single datagram <= min(upper bound, peer limit); client Initial datagrams and PATH_CHALLENGE/RESPONSE datagrams >= 1200; if loss_probes fell by d at least d datagrams <= 1200. Estimate history: rises only to the size of an earlier probe the simulated path did not drop, never below min(min_mtu, peer limit). Black hole: the workload still completes (bounded progress).".into(),
+            rule: "seeded worlds with initial_mtu / min_mtu / discovery (upper bound, interval, cooldown, minimum change) configurations, peer max_udp_payload_size 1472, GSO batch 1..10, path MTU 1200..9000 that drops (black hole) or rises at random instants, coalesced handshake flights, DATAGRAM frames, loss/reorder faults, rebinding. Per transmit: every datagram <= current_mtu() read before the call (all but the last exactly segment_size) unless the call sent the MTU probe (sent_plpmtud_probes delta), which must be a single datagram <= min(upper bound, peer limit); client Initial datagrams and PATH_CHALLENGE/RESPONSE datagrams >= 1200; if loss_probes fell by d at least d datagrams <= 1200. Estimate history: rises only to the size of an earlier probe the simulated path did not drop, never below min(min_mtu, peer limit). Black hole: the workload still completes (bounded progress). (closing) connections closed by either side after every prefix of an exchange with application error codes of 1/2/4/8 encoded bytes and reasons of 0..5000 bytes: the same per-datagram size rules.".into(),
             assumptions: vec!["pad_to_mtu is excluded here (see the C02 known finding); probe acknowledgement itself is not observed, only that a probe of that size was sent and not dropped by the path".into()],
             min_evals: ctx.tier.pick(150, 5000),
             min_nontrivial: ctx.tier.pick(100, 2000),
